@@ -104,6 +104,21 @@ def gen_cases(rng, tier):
         payload = total - 16 - 4 - 3
         ops = ["bld new", "bld prep d 256", "bld add %s 0 256 %s=x%s" % (rng.choice("012"), s.tok(), G.hexs(G.rand_bytes(rng, payload))), "bld upd", "bld obs"]
         cases.append(Case(ops, "size-boundary", False, True))
+    # user-made elements whose declared length is SHORTER than their data type's width (no reduced-size
+    # encoding in this library): outside the model's domain (the model calls them not encodable), but
+    # "arbitrary element lists" all the same - the set must stay consistent and nothing may crash
+    # (before the fix: index-out-of-range panic in dataRecord.GetBuffer, finding D16)
+    fixed = [ie for ie in sup if ie.ty in G.WIDTH or ie.ty in (11, 12, 18, 19)]
+    for _ in range(60 if tier == "quick" else 2000):
+        ies = []
+        for _ in range(rng.randint(1, 4)):
+            ie = rng.choice(fixed)
+            if rng.random() < 0.6:
+                ie = G.IE(55555, rng.choice([1, 200, 32767]), ie.ty, rng.randrange(0, ie.len), "short" + ie.name[:12])
+            ies.append(ie)
+        vals = ",".join("%s=%s" % (ie.tok(), G.well_typed_value(rng, G.IE(ie.ent, ie.id, ie.ty, {11: 1, 12: 6, 18: 4, 19: 16}.get(ie.ty, G.WIDTH.get(ie.ty, 1)), ie.name), big_ok=False, maxlen=20)) for ie in ies)
+        ops = ["bld new", "bld prep d 256", "bld add %s 1 256 %s" % (rng.choice("012"), vals), "bld upd", "bld obs"]
+        cases.append(Case(ops, "short-declared-length", True, False, judge=True))
     # outside the property's quantifier: adds without a prepare (new vs reset differ by design of the code)
     for _ in range(50):
         ie = rng.choice(sup)
